@@ -1,8 +1,46 @@
 LEVEL = "exploration"
-RULE = "draft"
-ASSUMPTIONS = []
+RULE = ("three harnesses. C17_proj: one case = (ellipsoid from {WGS84, sphere, f=+-0.01 series, f=+-0.1 and WGS84 via the exact solver, a=1 f=1/150}, "
+        "centre incl. poles/equator/+-180, construction parameters): azimuthal-equidistant/gnomonic points are built from the centre by azimuth and "
+        "distance (1e-6 m ... antipodal-minus-eps, gnomonic horizon +- 1e-6 m..10 km and +-ulps, beyond the horizon, multi-circuit for Reverse), "
+        "Cassini-Soldner points by the two-leg construction (meridian distance y incl. over a pole and near the antipodal meridian point, perpendicular leg x "
+        "incl. 0, tiny, near the 90-degree limit, beyond it for Reverse), plus a directed catalogue of singular targets. "
+        "C17_intersect: one case = a pair of geodesic lines (random, meridian/equator/polar catalogue, nearly parallel or antiparallel with crossing angle "
+        "1e-12..1e-1 from a common point or from separated starts, exactly coincident / reversed, constructed and random segments) pushed through "
+        "Closest (p0 = 0 and random offsets), All (maxdist 0 ... 4 circumferences), Next (from the intersection found) and Segment, both overloads. "
+        "C17_nn: one case = (metric, dist_t, point-set style, n in 0..5000, bucket 0..maxbucket, one query) with 4-8 (k, maxdist, mindist, exhaustive, tol) "
+        "configurations each, every tree also re-queried through 4 serialised copies and attacked with 4-12 corrupted streams. "
+        "distinct = distinct hash of (class, all inputs); no trivial cases are counted")
+ASSUMPTIONS = [
+    "oracle/ref_geod.hpp (float128 / long double quadrature geodesic, self-validated by C01 against an ODE formulation) is the true geodesic; "
+    "projection truths are reference rays Newton-corrected onto the exact doubles handed to Forward (residual < 1e-11 m verified per case)",
+    "tolerances: documented accuracy of the underlying geodesic solver (Geodesic.hpp / GeodesicExact.hpp tables, scaled by a and by path length / half circuit) "
+    "x 2 for the projections in the author's error measures (ground distance; azimuth error x |m12| for inverse-type azimuths, x a for direct-type; |dM12| x a), "
+    "x 10 for intersection positions (DESIGN C17), divided by sin(crossing angle) when (x,y) values are compared; conditioning terms are stated next to each residual",
+    "intersection certificate: own RK4 integration of the Cartesian geodesic ODE sampled every 20 km + spatial hashing + Newton on the reference geodesics; its "
+    "completeness rests on: two distinct intersections differ by >= pi/sqrt(Kmax) in x or in y (Klingenberg injectivity-radius bound) and on the sampling step; "
+    "for crossing angles < 1e-4 a cross-track sign-change finder over all lap-shifted branches is used instead",
+    "nearest neighbour: the brute-force scan uses the same distance functor as the library (exact integer/float arithmetic for 7 of the 9 metric/type combinations)",
+    "coincident lines are judged by membership, the coincidence indicator implied by the reference tangents, and the overlap logic of exactly coincident segments only",
+]
+EXHAUSTIVE_SUBSPACES = ["n = 0..11 for every metric x point-set style (NearestNeighbor)", "directed projection catalogue: 8 ellipsoids x 8 centre latitudes x 4 centre longitudes x 8 target kinds"]
 RUNS = [
+    dict(harness="harness/C17_proj.cpp", flavour="o2", scale={"quick": 1.0, "thorough": 1.0}),
+    dict(harness="harness/C17_intersect.cpp", flavour="o2", scale={"quick": 1.0, "thorough": 1.0}),
     dict(harness="harness/C17_nn.cpp", flavour="o2", scale={"quick": 1.0, "thorough": 1.0}),
+    dict(harness="harness/C17_proj.cpp", flavour="asan", scale={"quick": 0.05, "thorough": 0.02}, extra_args=["--limit-s", "900"]),
+    dict(harness="harness/C17_intersect.cpp", flavour="asan", scale={"quick": 0.05, "thorough": 0.03}, extra_args=["--limit-s", "1800"]),
     dict(harness="harness/C17_nn.cpp", flavour="asan", scale={"quick": 0.15, "thorough": 0.05}, extra_args=["--limit-s", "900"]),
 ]
-MANIFEST = dict(technique="draft", text="draft", note="draft", design_ref="DESIGN.md#c17")
+MANIFEST = dict(
+    technique="runtime oracle monitors next to every call: float128/long-double reference geodesic for the three projections and for membership of every reported "
+              "intersection; an independent completeness/optimality certificate (own ODE sampling + hashing + Newton on reference geodesics) for Closest/Next/Segment/All; "
+              "brute-force linear-scan oracle for every NearestNeighbor::Search; serialisation history monitor and corrupted-stream monitor for Save/Load; law monitors "
+              "(round trips, overload equality, sortedness, documented segment indicator); ASan+UBSan build of the same workloads",
+    text="Tens of thousands (quick) to about a million (thorough) constructed projection points, ~8k/100k line pairs and ~3k/45k nearest-neighbour histories are executed with "
+         "a reference answer computed next to every library call: projected coordinates, azimuths and scales must be those of the reference geodesic (NaN exactly beyond the "
+         "gnomonic horizon), every reported intersection must lie on both reference lines and the closest/next/segment/all answers must agree with an independently "
+         "computed complete list of intersections in the L1 ball, every Search must return exactly the distances a linear scan finds (documented weaker contracts for "
+         "exhaustive=false / tol>0), and every answer must survive Save/Load in text and binary. Held = no monitor fired on the executions observed.",
+    note="Trusts oracle/ref_geod.hpp, the documented accuracy figures (x2 projections, x10 intersections) as tolerance model, and the injectivity-radius argument for the "
+         "certificate's de-duplication; coincident lines and exhaustive=false/tol>0 searches are judged against their documented (weaker) contracts only; NearestNeighbor::Statistics is excluded.",
+    design_ref="DESIGN.md#c17")
